@@ -61,6 +61,14 @@ def run(ctx):
     ctx.do(rule_helpers_examine_every_pair)
     from .pitfalls import rule_base64_validated_strictly
     ctx.do(rule_base64_validated_strictly, "C02.binary-values", ("stix2.properties",))
+    # "an unknown property is rejected, never emitted": the refusal of custom content inside embedded values (C04's clauses on
+    # the container cleaners and on the keys that switch the refusal off) is a necessary condition of strict-mode validity
+    from . import C04 as _C04
+    ctx.do_as(_C04.rule_flag_back, {"C04.flag-back": "C02.strict-refusal"})
+    ctx.do_as(_C04.rule_privileged_keys, {"C04.privileged-keys": "C02.strict-refusal"})
+    # ... and so is the validation of granular-marking selectors against the content (C08's clauses)
+    from . import C08 as _C08
+    ctx.do(_C08.rule_syntax_agreement, rule_id="C02.selectors")
     # timestamps are emitted with the digits their slot prescribes only if every value went through the truncation pipeline
     from . import C15
     ctx.do(C15.rule_truncate, rule_id="C02.timestamp-pipeline")
